@@ -108,7 +108,7 @@ class StochasticEnergyAdapter(Energy):
     but rather via the factory function :attr:`make`.
     """
     def __init__(self, position, op, keys, local_ops, n_samples, comm, nanisinf,
-                 noise, _callingfrommake=False):
+                 noise, _callingfrommake=False, mirror_samples=False):
         if not _callingfrommake:
             raise NotImplementedError
         super(StochasticEnergyAdapter, self).__init__(position)
@@ -118,6 +118,7 @@ class StochasticEnergyAdapter(Energy):
         self._local_ops = local_ops
         self._n_samples = n_samples
         self._nanisinf = nanisinf
+        self._mirror_samples = bool(mirror_samples)
         lin = Linearization.make_var(position)
         v, g = [], []
         for lop in self._local_ops:
@@ -144,7 +145,8 @@ class StochasticEnergyAdapter(Energy):
     def at(self, position):
         return StochasticEnergyAdapter(position, self._op, self._keys,
                     self._local_ops, self._n_samples, self._comm, self._nanisinf,
-                    self._noise, _callingfrommake=True)
+                    self._noise, _callingfrommake=True,
+                    mirror_samples=self._mirror_samples)
 
     def apply_metric(self, x):
         lin = Linearization.make_var(self.position, want_metric=True)
@@ -160,8 +162,11 @@ class StochasticEnergyAdapter(Energy):
                                            self.apply_metric)
 
     def resample_at(self, position):
+        # `self._n_samples` counts the mirrored samples as well
+        n_samples = self._n_samples//2 if self._mirror_samples else self._n_samples
         return StochasticEnergyAdapter.make(position, self._op, self._keys,
-                                            self._n_samples, self._comm)
+                                            n_samples, self._mirror_samples,
+                                            comm=self._comm, nanisinf=self._nanisinf)
 
     @staticmethod
     def make(position, op, sampling_keys, n_samples, mirror_samples,
@@ -222,7 +227,8 @@ class StochasticEnergyAdapter(Energy):
             local_ops.append(tmp)
         n_samples = 2*n_samples if mirror_samples else n_samples
         return StochasticEnergyAdapter(position, op, sampling_keys, local_ops,
-                              n_samples, comm, nanisinf, noise, _callingfrommake=True)
+                              n_samples, comm, nanisinf, noise, _callingfrommake=True,
+                              mirror_samples=mirror_samples)
 
     def samples(self):
         return self._noise
